@@ -288,6 +288,28 @@ def arm_table(m, strip=None):
     return rows
 
 
+def duplicate_arms(m):
+    """[(variant, [arms])] for every variant that more than one arm of the match names. A match read as a table (variant ->
+    row) has one row per variant; a second arm — typically a guarded one in front — is a hidden row that last-wins readers
+    never see."""
+    seen = {}
+    for v, arm, alt in arm_table(m):
+        if v is None:
+            continue
+        seen.setdefault(v, [])
+        if not any(a is arm for a in seen[v]):
+            seen[v].append(arm)
+    return [(v, arms) for v, arms in seen.items() if len(arms) > 1]
+
+
+def one_arm_per_variant(rep, rule, table, sh, rel, m, allow=()):
+    dups = [(v, arms) for v, arms in duplicate_arms(m) if v not in allow]
+    for v, arms in dups:
+        rep.bad(rule, "%s#%s#second-arm" % (table, v), sh.loc(rel, arms[0]), "%s has %d arms for %s (lines %s): the rules read this match as a table with one row per variant; an extra — guarded — arm handles some values of the variant by other code than the row that was checked" % (table, len(arms), v, ", ".join(str(a["s"][0]) for a in arms)))
+    rep.check(not dups, rule, "%s#one-arm-per-variant" % table, rel, "see the #second-arm reports", nontrivial=False)
+    return dups
+
+
 def calls_in(node, closures=True):
     it = walk(node) if closures else walk_no_closure(node)
     for n in it:
